@@ -12,14 +12,21 @@ src = pathlib.Path(f"/tmp/mut-{prop}")
 head = subprocess.run(["git", "-C", "/repo", "rev-parse", "--short", "HEAD"], capture_output=True, text=True).stdout.strip()
 for n, d in sorted(desc.items()):
     patch, demo = src / f"patch{n}.diff", src / f"demo{n}.py"
+    if not patch.exists():  # re-run of an already ingested change
+        patch, demo = V / "seeded" / f"{prop}-{n}" / "patch.diff", V / "seeded" / f"{prop}-{n}" / "demo.py"
     conf = subprocess.run([str(V / "tools/confirm_seeded.sh"), str(patch), str(demo)], capture_output=True, text=True).stdout
     tr = subprocess.run([str(V / "tools/try_seeded.sh"), str(patch), prop, *extra], capture_output=True, text=True, cwd=V).stdout
     lines = [l for l in tr.splitlines() if l.startswith(("VIOLATION", "check ", "KNOWN"))]
     out = V / "seeded" / f"{prop}-{n}"
     out.mkdir(parents=True, exist_ok=True)
-    shutil.copy(patch, out / "patch.diff"); shutil.copy(demo, out / "demo.py")
+    if patch.parent != out:
+        shutil.copy(patch, out / "patch.diff"); shutil.copy(demo, out / "demo.py")
     detected = [l for l in lines if l.startswith("VIOLATION")]
-    meta = {"id": f"{prop}-{n}", "property": prop, "change": d["change"], "needs_to_manifest": d["needs"],
+    old = json.loads((out / "meta.json").read_text()) if (out / "meta.json").exists() else {}
+    hist = old.get("history", [])
+    if old.get("outcome") and old.get("detected") is not None and not (old.get("detected") and old.get("with_failing_input")):
+        hist = hist + [{"earlier_outcome": old["outcome"], "note": "machinery strengthened afterwards"}]
+    meta = {"history": hist, "id": f"{prop}-{n}", "property": prop, "change": d["change"], "needs_to_manifest": d["needs"],
             "written_by": "fresh sub-agent given only the property text and its own worktree (nothing from /verif)",
             "confirmed": conf.strip().splitlines()[0] if conf.strip() else "confirmation failed",
             "ran": f"tools/try_seeded.sh seeded/{prop}-{n}/patch.diff {' '.join([prop, *extra])}",
